@@ -61,7 +61,7 @@ Report(e) ==
       name == SourceName({}, e.tree, e.sort, e.mode)
       s == OrdSort(e.sort)
       full == e.limit = 0 \/ Len(e.out) < e.limit
-      expl == {D \in {X \in SUBSET AllDevs : Cardinality(X) \in {1, 2}} : OkUnder(D, e)}
+      expl == {D \in {X \in SUBSET AllDevs : Cardinality(X) \in {1, 2, 3}} : OkUnder(D, e)}
       minexpl == {D \in expl : \A D2 \in expl : Cardinality(D) <= Cardinality(D2)}
   IN [mode |-> e.mode, sort |-> e.sort, res |-> e.res, class |-> e.class, source |-> e.source, expSource |-> name,
       uncovered |-> {Class(b) : b \in M0 \ SourceSet({}, e.source, e.tree)},
